@@ -285,9 +285,10 @@ open Hts.Model.Csi
 
 def csiMagic : Bytes := [0x43, 0x53, 0x49]
 
-/-- `binLimit := uint32(((1 << ((depth+1)*3)) - 1) / 7)` in `uint32` arithmetic as coded (the shift
-wraps to 0 from depth 10 on); equal to `(8^(depth+1) - 1)/7` for depth ≤ 9 -/
-def csiBinLimit (depth : Nat) : Nat := Hts.Model.Coord.csiT0 (depth + 1)
+/-- `binLimit := uint32(((uint64(1) << ((depth+1)*3)) - 1) / 7)` (WriteTo and ReadFrom, with fixes/C15-2: a
+64-bit shift, the result truncated to `uint32`); equal to the number of bins `(8^(depth+1) - 1)/7` up to
+depth 10, the deepest geometry whose bin numbers fit `uint32`.  (Depths above 20 are rejected by ReadFrom.) -/
+def csiBinLimit (depth : Nat) : Nat := ((2 ^ ((depth + 1) * 3) - 1) / 7) % 4294967296
 
 def wCBin (version : Nat) (b : CBin) : Bytes :=
   le32 b.bin ++ i64 b.left ++ (if version = 2 then le64 b.records else []) ++ wChunks b.chunks
